@@ -83,6 +83,9 @@ func classify(sc *Scenario, r Result) (bool, []string) {
 	if sc.NoFinish {
 		cl = append(cl, "no-receiver-after-script")
 	}
+	if sc.PreCancel {
+		cl = append(cl, "created-on-a-cancelled-context")
+	}
 	switch sc.Prop {
 	case "C05":
 		if sc.Stage == "take" {
